@@ -153,6 +153,29 @@ def run(rep: Report, tier: str) -> None:  # noqa: C901
                            f"window-function variant of filter: the outer WHERE does not test exactly the projected predicate column (`{str(txt)[:120]}`)"))
     else:
         _filter_truth(rep, ff, "filter/window-variant", (m1.group("c") or m1.group("c2")))
+    # filter over the RESULT of another clause: the condition must be evaluated over that result as a table (FROM (<operand SELECT>)),
+    # never appended to the operand's own SELECT - in `SELECT e AS x FROM t WHERE x > 1` the WHERE sees the base column t.x, not the alias
+    for inner_op in ("calc", "keep", "rename"):
+        inner = sm.MNode("RegularAggregation", op=inner_op, children=[], dataset=sm.MNode("VarID", value="DS_1"))
+        node2 = sm.MNode("RegularAggregation", op="filter", children=[sm.MNode("VarID", value="COND")], dataset=inner)
+        inner_sql = f'(SELECT ⟦{inner_op}-items⟧ FROM "DS_1")'
+        ext2 = {"self._resolve_clause_dataset": lambda n: (d, inner_sql), "self.visit": lambda x: "⟦COND⟧", "self._clause_scope": lambda *a, **k: None,
+                "_contains_analytic": lambda x: False, "isinstance": sm._isinstance, "SQLBuilder": sm.MBuilder, "self._as_subquery": lambda x: x}
+        try:
+            r2 = Interp(P, externals=ext2).call(ff, {"self": sm.MTranspiler(), "node": node2})
+        except (Raised, Unmodelled) as e:
+            raise AnalysisError(f"filter handler over a {inner_op} operand not evaluable: {e}")
+        if isinstance(r2, sm.MBuilder):
+            ok2 = r2.table == inner_sql and r2.sub is None
+            shown = f"FROM {r2.table} WHERE {r2.wheres}"
+        else:
+            ok2 = inner_sql in str(r2) and re.search(r"FROM\s+" + re.escape(inner_sql), str(r2)) is not None
+            shown = str(r2)[:140]
+        rep.instance("R02.2", f"filter/over-{inner_op}", sample={"sql": shown})
+        if not ok2:
+            rep.add(transp.fnd("R02.2", f"filter/over-{inner_op}", ff, ff.node.lineno,
+                               f"DS_1[{inner_op} …][filter cond]: the filter is written `{shown}` - the condition is attached to the {inner_op} clause's own SELECT instead of being evaluated over its "
+                               f"result (FROM {inner_sql}): in WHERE a name denotes the INPUT column, so a condition on a component the {inner_op} clause overwrote or renamed tests the old value"))
     if not re.search(r'EXCLUDE \("' + re.escape(alias or "?") + r'"\)', str(txt)):
         rep.add(transp.fnd("R02.2", "filter/window-variant/columns", ff, ff.node.lineno, "window-function variant of filter: the helper predicate column is not removed from the result"))
 
